@@ -39,6 +39,8 @@ inductive Step (rsteps : List RStep) (psteps : List PStep) : St → St → Prop
   | restart (s : St) (wipe : Bool) (order : List Bytes) :
       (∀ n, n ∈ order ↔ has s.metas n = true) →
       Step rsteps psteps s (restart P psteps wipe order s).1
+  /-- the environment arms a transient fault: the b-th / m-th next write to `blobs` / `meta` will fail -/
+  | arm (s : St) (b m : Nat) : Step rsteps psteps s { s with failBlobs := b, failMeta := m }
 
 inductive Reach (rsteps : List RStep) (psteps : List PStep) : St → Prop
   | init : Reach rsteps psteps {}
@@ -80,8 +82,8 @@ def RecvOK (s : St) (x : Recv) : Prop :=
   (∃ plain r, x.plainBR = P.digest plain ∧ x.size = plain.length ∧ plain.length < 4294967296 ∧
       x.encBytes = encryptBlob P r plain ∧ x.encBR = P.digest x.encBytes) ∧
   (RStep.setIndex ∈ x.rest → get s.index x.plainBR = none) ∧
-  (RStep.putBlobs ∉ x.rest → get s.blobs x.encBR = some x.encBytes) ∧
-  ((x.metaBR = none ∧ (x.rest = goodR ∨ x.rest = [.putMeta, .record, .setIndex])) ∨
+  (x.rest ≠ [] ∧ RStep.putBlobs ∉ x.rest → get s.blobs x.encBR = some x.encBytes) ∧
+  ((x.metaBR = none ∧ (x.rest = goodR ∨ x.rest = [.putMeta, .record, .setIndex] ∨ x.rest = [])) ∨
    (∃ m, x.metaBR = some m ∧ Old P s.nonce m ∧
       (x.rest = [] ∨
        ((x.rest = [.record, .setIndex] ∨ x.rest = [.setIndex]) ∧
@@ -101,6 +103,17 @@ structure Inv (s : St) : Prop where
   heap : ∀ e ∈ s.heap, T P s.metas s.nonce e.br e.plains
   jobs : ∀ j ∈ s.jobs, JobOK P s.metas s.nonce j
   recv : ∀ x, s.recv = some x → RecvOK P s x
+
+/-- the invariant does not look at the trace, the armed faults or the error flag -/
+theorem Inv.frame {P : Params} {s : St} (h : Inv P s) (s' : St)
+    (e : s'.index = s.index ∧ s'.blobs = s.blobs ∧ s'.metas = s.metas ∧ s'.heap = s.heap ∧
+      s'.nonce = s.nonce ∧ s'.jobs = s.jobs ∧ s'.recv = s.recv) : Inv P s' := by
+  obtain ⟨i, b, m, hp, n, j, r, t, fb, fm, lf⟩ := s
+  obtain ⟨i', b', m', hp', n', j', r', t', fb', fm', lf'⟩ := s'
+  simp only at e
+  obtain ⟨e1, e2, e3, e4, e5, e6, e7⟩ := e
+  subst e1; subst e2; subst e3; subst e4; subst e5; subst e6; subst e7
+  exact ⟨h.kI, h.kM, h.kB, h.dec, h.lines, h.cov, h.heap, h.jobs, h.recv⟩
 
 /-! ## frame lemmas -/
 
@@ -637,10 +650,15 @@ theorem inv_stepJob (I : Ideal P) {s : St} (h : Inv P s) (i : Nat) : Inv P (step
       cases hls : packedLines s.index (sortRefs j.plains) with
       | none => exact h.subjobs _ hR
       | some ls =>
-        have A := inv_upload I h j hj _ hR hp ls hls
-          (.putMeta (P.digest (encryptBlob P s.nonce (fmtMeta ls))) (encryptBlob P s.nonce (fmtMeta ls)) :: s.trace)
-          [.record, .remove] (Or.inl rfl)
-        exact A.congr_jobs _ (fun x => mem_reinsert _ i _ x)
+        by_cases hf : s.failMeta = 1
+        · -- the upload fails: the goroutine gives up
+          simp only [hf, if_true]
+          exact (h.subjobs _ hR).frame _ ⟨rfl, rfl, rfl, rfl, rfl, rfl, rfl⟩
+        · simp only [hf, if_false]
+          have A := inv_upload I h j hj _ hR hp ls hls
+            (.putMeta (P.digest (encryptBlob P s.nonce (fmtMeta ls))) (encryptBlob P s.nonce (fmtMeta ls)) :: s.trace)
+            [.record, .remove] (Or.inl rfl)
+          exact (A.congr_jobs _ (fun x => mem_reinsert _ i _ x)).frame _ ⟨rfl, rfl, rfl, rfl, rfl, rfl, rfl⟩
     · rcases hr with hr | hr | hr
       · -- record
         simp only [jobStep, hr, hm1]
@@ -732,13 +750,34 @@ theorem inv_recvBegin (I : Ideal P) {s s' : St} (h : Inv P s) (ref plain : Bytes
         injection hx with hx
         subst hx
         exact ⟨⟨plain, s.nonce, hd.symm, rfl, hlen, rfl, rfl⟩, fun _ => hnone,
-          fun hn => absurd (by simp [goodR]) hn, Or.inl ⟨rfl, Or.inl rfl⟩⟩ }
+          fun hn => absurd (show RStep.putBlobs ∈ goodR by simp [goodR]) hn.2, Or.inl ⟨rfl, Or.inl rfl⟩⟩ }
 
 end Pk.Encrypt
 
 namespace Pk.Encrypt
 open Pk Pk.SMap
 variable {P : Params}
+
+/-- a write to a wrapped store fails before the meta blob exists: ReceiveBlob is about to return the
+error; nothing it has done so far is relied upon -/
+theorem Inv.failed {s : St} (h : Inv P s) (x : Recv) (hx : s.recv = some x) (hm : x.metaBR = none) :
+    Inv P { s with recv := some { x with rest := [] } } := by
+  obtain ⟨r1, _, _, _⟩ := h.recv x hx
+  exact {
+    kI := h.kI, kM := h.kM, kB := h.kB, dec := h.dec
+    lines := by
+      intro n c ls hg hl pv hpv
+      rcases h.lines n c ls hg hl pv hpv with e | e
+      · exact Or.inl e
+      · obtain ⟨y, hy, hy2, _⟩ := e
+        rw [hx] at hy; injection hy with hy; subst hy
+        rw [hm] at hy2; cases hy2
+    cov := h.cov, heap := h.heap, jobs := h.jobs
+    recv := by
+      intro y hy
+      injection hy with hy
+      subst hy
+      exact ⟨r1, fun hn => by simp at hn, fun hn => absurd rfl hn.1, Or.inl ⟨hm, Or.inr (Or.inr rfl)⟩⟩ }
 
 theorem inv_recvStep (I : Ideal P) {s : St} (h : Inv P s) : Inv P (recvStep P goodP s) := by
   unfold recvStep
@@ -750,9 +789,13 @@ theorem inv_recvStep (I : Ideal P) {s : St} (h : Inv P s) : Inv P (recvStep P go
       intro hm pv ⟨y, hy, hy2, _⟩
       rw [hx] at hy; injection hy with hy; subst hy
       rw [hm] at hy2; cases hy2
-    rcases r4 with ⟨hm, hr | hr⟩ | ⟨m, hm, hold, hr⟩
+    rcases r4 with ⟨hm, hr | hr | hr⟩ | ⟨m, hm, hold, hr⟩
     · -- putBlobs
       simp only [hr, goodR]
+      by_cases hf : s.failBlobs = 1
+      · simp only [hf, if_true]
+        exact (h.failed x hx hm).frame _ ⟨rfl, rfl, rfl, rfl, rfl, rfl, rfl⟩
+      simp only [hf, if_false]
       have e : x.encBR = P.digest x.encBytes := x5
       exact {
         kI := h.kI, kM := h.kM, kB := kasc_ins _ _ h.kB
@@ -771,11 +814,15 @@ theorem inv_recvStep (I : Ideal P) {s : St} (h : Inv P s) : Inv P (recvStep P go
           injection hy with hy
           subst hy
           refine ⟨⟨plain, r, x1, x2, x3, x4, x5⟩, fun _ => r2 (by simp [hr, goodR]), fun _ => ?_,
-            Or.inl ⟨hm, Or.inr rfl⟩⟩
+            Or.inl ⟨hm, Or.inr (Or.inl rfl)⟩⟩
           show get (ins x.encBR x.encBytes s.blobs) x.encBR = some x.encBytes
           rw [get_ins]; simp }
     · -- putMeta
       simp only [hr]
+      by_cases hf : s.failMeta = 1
+      · simp only [hf, if_true]
+        exact (h.failed x hx hm).frame _ ⟨rfl, rfl, rfl, rfl, rfl, rfl, rfl⟩
+      simp only [hf, if_false]
       have hblob := r3 (by simp [hr])
       generalize hc : makeSingleMetaBlob P s.nonce x.plainBR x.encBR x.size = c
       generalize hmm : P.digest c = m
@@ -848,6 +895,17 @@ theorem inv_recvStep (I : Ideal P) {s : St} (h : Inv P s) : Inv P (recvStep P go
               Or.inr ⟨Or.inl rfl, c, by show get (ins m c s.metas) m = some c; rw [get_ins]; simp, hlines, ?_⟩⟩⟩
           intro ⟨j, hj, _, hj2⟩
           exact hmfresh m ((h.jobs j hj).1 m hj2).1 rfl }
+    · -- ReceiveBlob returns the error of the wrapped store
+      simp only [hr]
+      exact {
+        kI := h.kI, kM := h.kM, kB := h.kB, dec := h.dec
+        lines := by
+          intro n c ls hg hl pv hpv
+          rcases h.lines n c ls hg hl pv hpv with e | e
+          · exact Or.inl e
+          · exact absurd e (nopend hm pv)
+        cov := h.cov, heap := h.heap, jobs := h.jobs
+        recv := by intro y hy; cases hy }
     · rcases hr with hr | ⟨hr, c, hc1, hc2, hc3⟩
       · -- ReceiveBlob returns
         simp only [hr]
@@ -1165,6 +1223,7 @@ theorem inv_step (I : Ideal P) {s s' : St} (h : Inv P s) (st : Step P goodR good
   | recvStep _ => exact inv_recvStep I h
   | jobStep i => exact inv_stepJob I h i
   | restart wipe order hord => exact (restart_spec h wipe order hord).2.2
+  | arm b m => exact h.frame _ ⟨rfl, rfl, rfl, rfl, rfl, rfl, rfl⟩
 
 theorem inv_reach (I : Ideal P) {s : St} (hr : Reach P goodR goodP s) : Inv P s := by
   induction hr with
@@ -1212,10 +1271,13 @@ theorem jobStep_trace (s0 : St) (j : Job) (ht : TraceOK P s0)
       cases packedLines s0.index (sortRefs j.plains) with
       | none => exact ht
       | some ls =>
-        intro c hc
-        rcases List.mem_cons.mp hc with e | e
-        · subst e; exact ⟨_, _, rfl, rfl⟩
-        · exact ht c e
+        simp only
+        split
+        · exact ht
+        · intro c hc
+          rcases List.mem_cons.mp hc with e | e
+          · subst e; exact ⟨_, _, rfl, rfl⟩
+          · exact ht c e
     | record =>
       simp only
       cases j.packed with
@@ -1252,14 +1314,18 @@ theorem trace_step {s s' : St} (h : Inv P s) (ht : TraceOK P s) (st : Step P goo
       simp only
       split
       · exact ht
-      · intro c hc
-        rcases List.mem_cons.mp hc with e | e
-        · subst e; exact ⟨r, plain, x4, x5⟩
-        · exact ht c e
-      · intro c hc
-        rcases List.mem_cons.mp hc with e | e
-        · subst e; exact ⟨_, _, rfl, rfl⟩
-        · exact ht c e
+      · split
+        · exact ht
+        · intro c hc
+          rcases List.mem_cons.mp hc with e | e
+          · subst e; exact ⟨r, plain, x4, x5⟩
+          · exact ht c e
+      · split
+        · exact ht
+        · intro c hc
+          rcases List.mem_cons.mp hc with e | e
+          · subst e; exact ⟨_, _, rfl, rfl⟩
+          · exact ht c e
       · split
         · exact ht
         · exact ht
@@ -1283,6 +1349,7 @@ theorem trace_step {s s' : St} (h : Inv P s) (ht : TraceOK P s) (st : Step P goo
     intro c hc
     rw [readAll_trace] at hc
     exact ht c hc
+  | arm b m => exact ht
 
 theorem trace_reach (I : Ideal P) {s : St} (hr : Reach P goodR goodP s) : TraceOK P s := by
   induction hr with
